@@ -552,7 +552,7 @@ FAULTS = {
                         'bgt t0, t1, nolabel', 'jal nolabel', 'bne s0, x0, nolabel', 'addi t0, t0, %offset(nolabel)', 'blez a0, nolabel'],
     'undefined-constant': ['addi t0, t0, NOCONST', 'KX = NOCONST + 1', 'db NOCONST', 'li t0, NOCONST * 2', 'lw t0, NOCONST(sp)',
                            'lui t0, %hi(NOCONST)', 'pack <I NOCONST', 'dw NOCONST + 4', 'andi s0, s0, NOCONST', 'KX = NOCONST'],
-    'malformed-expr': ['addi t0, t0, 1 << -1', 'KX = 1 << -1', 'KX = [1][5]', 'KX = {}[0]', 'dw 1 << -1', 'li t0, 1 << -1', 'KX = 5 % 0', 'KX = (1).foo', 'KX = -"a"',
+    'malformed-expr': ["KX = '\\'", "db '\\'", "addi t0, t0, '\\'", "li t0, '\\x4'", "KX = '\\u12'", 'addi t0, t0, 1 << -1', 'KX = 1 << -1', 'KX = [1][5]', 'KX = {}[0]', 'dw 1 << -1', 'li t0, 1 << -1', 'KX = 5 % 0', 'KX = (1).foo', 'KX = -"a"',
                        'addi t0, t0, (1 +', 'addi t0, t0, 1 +* 2', 'KX = 3 +', 'db 1 **', 'addi t0, t0, %hi(', 'lui t0, %lo(', 'KX = ) 4',
                        'li t0, 5 5', 'dw 1 2', 'addi t0, t0, 0x', 'addi t0, t0', 'lw t0', 'KX = ', 'pack <I', 'db', 'addi t0, t0, %position(',
                        'beq t0, t1', 'lui t0', 'add t0, t1', 'jal', 'align', 'align 4 4', 'sw t0, 4(', 'bytes 0x', 'pack'],
